@@ -3,8 +3,11 @@ from ..stream import StreamPart
 from ..runner import run_check
 
 
+from .c13_probe import StreamProbePart
+
+
 def run(tier, seed, replay=None):
-    parts = [StreamPart("stream")]
+    parts = [StreamPart("stream"), StreamProbePart()]
     return run_check(
         "C13", tier, seed, ["UnifexModel.Props.C13"], parts,
         rule="random stream pipelines (size<=7 quick / <=12 thorough; sources range_stream, single, never_stream and scripted manual sources whose "
@@ -16,7 +19,7 @@ def run(tier, seed, replay=None):
              "one event and its canonical trace is new",
         assumptions=["external events are serialised (single thread); the take_until / stop_immediately atomics are exercised only in the orders a single thread produces",
                      "user callables (transform function, filter predicate, reducer) are total deterministic scripts (add / throw / throw-if-equal; even / != c / < c / throw-if-equal)",
-                     "via_stream / typed_via_stream / on_stream / delay (scheduler hops) are outside the model and the theorems",
+                     "via_stream / typed_via_stream / on_stream (scheduler hops) are outside the model and the theorems; they are exercised by a model-independent probe (harness/evt/streamprobe.cpp: tracked source under on_stream/via_stream, for_each/reduce_stream, a stop at every position; oracle = the property sentence — a test, not a theorem); delay is not exercised",
                      "between two adaptors the harness inserts its own transparent stream eraser (virtual dispatch, same stop token); it is not represented in the model"],
         trusted_extra=["harness/evt/stream.cpp (builds the real pipeline, manual sources, canonicalises observations, monitors)", "tools/stream.py generator and diff",
                        "g++ 12, ASan/UBSan (vptr check off: double destruction is reported by the tracked-object monitors)"],
